@@ -41,6 +41,12 @@ func newCommand(ctx context.Context, step dag.Step) (Executor, error) {
 		Setpgid: true,
 		Pgid:    0,
 	}
+	// When the context ends (the DAG's timeout), kill the step's whole process
+	// group, as Kill does for a stop: killing only the command itself leaves
+	// its children holding the output open, and the run would wait for them.
+	cmd.Cancel = func() error {
+		return syscall.Kill(-cmd.Process.Pid, syscall.SIGKILL)
+	}
 
 	return &commandExecutor{
 		cmd: cmd,
